@@ -78,6 +78,42 @@ static unsigned long long tv_global_addr(struct value *v) {
 	for (int i = 0; i < TV_NGLOB; i++) if (i < tv_nglob && tv_glob[i].v == v) return (unsigned long long)(uintptr_t)tv_glob[i].mem;
 	il_unmodelled++; return 0;
 }
+/* ---- calls: the callees are harness functions (ref.inc).  Both executions record every call (callee, converted argument values) in a
+ * trace and draw the callee's result from the same symbolic table, so the traces and everything computed from the results must agree. ---- */
+#define TV_MAXCALL 6
+static struct { int id, n; unsigned long long a[4]; } tv_tr[2][TV_MAXCALL]; static int tv_nc[2]; static int tv_side; static unsigned long long tv_retv[TV_MAXCALL];
+static unsigned long long tv_rec(int id, int n, unsigned long long a0, unsigned long long a1, unsigned long long a2, unsigned long long a3) {
+	int k = tv_nc[tv_side]++;
+	if (k >= TV_MAXCALL) return 0;
+	tv_tr[tv_side][k].id = id; tv_tr[tv_side][k].n = n; tv_tr[tv_side][k].a[0] = a0; tv_tr[tv_side][k].a[1] = a1; tv_tr[tv_side][k].a[2] = a2; tv_tr[tv_side][k].a[3] = a3;
+	return tv_retv[k];
+}
+struct tv_args { int n, vararg_at; int cls[6]; unsigned long long val[6]; struct value *ty[6]; };
+static struct tv_args tv_getargs(void) {
+	struct tv_args A; A.n = 0; A.vararg_at = -1;
+	for (size_t j = 1; j < 8; j++) {
+		if (j >= il_cur_left) break;
+		struct inst *a = il_cur_ip[j];
+		if (a->kind == IVARARG) { A.vararg_at = A.n; continue; }
+		if (a->kind != IARG) break;
+		if (A.n < 6) { A.cls[A.n] = a->class; A.ty[A.n] = a->arg[1]; A.val[A.n] = il_val(a->arg[0], a->class); }
+		A.n++;
+	}
+	return A;
+}
+static bool tv_callee_is(struct inst *in, const char *name, void *fn) {
+	struct value *v = in->arg[0];
+	if (v->kind == VALUE_GLOBAL) return strcmp(v->u.name, name) == 0;
+	return il_val(v, 'l') == (unsigned long long)(uintptr_t)fn;
+}
+static bool tv_traces_equal(void) {
+	if (tv_nc[0] != tv_nc[1]) return false;
+	for (int k = 0; k < TV_MAXCALL; k++) if (k < tv_nc[0]) {
+		if (tv_tr[0][k].id != tv_tr[1][k].id || tv_tr[0][k].n != tv_tr[1][k].n) return false;
+		for (int j = 0; j < 4; j++) if (j < tv_tr[0][k].n && tv_tr[0][k].a[j] != tv_tr[1][k].a[j]) return false;
+	}
+	return true;
+}
 #include "tokens.inc"     /* feed_tokens() */
 #include "ref.inc"        /* the same function compiled by CBMC (ref_NAME), NPARAM, setup of symbolic inputs, comparison, callees */
 
